@@ -32,6 +32,9 @@ func (m *MSP[E]) UnmarshalCBOR(data []byte) error {
 	if err != nil {
 		return errs.Wrap(err).WithMessage("failed to unmarshal MSP from CBOR")
 	}
+	if dto == nil {
+		return ErrIsNil.WithMessage("MSP DTO is nil")
+	}
 	msp, err := NewMSP(dto.Matrix, dto.RowsToHolders)
 	if err != nil {
 		return errs.Wrap(err).WithMessage("invalid MSP data in CBOR")
